@@ -25,7 +25,9 @@ META = {
     "trusted_base": ["z3 (path feasibility, LRA)", "symx", "pandas/numpy as executed", "check_array pass-through"],
     "stubs": ["fairlearn.utils._input_validation.check_array pass-through for proxy arrays", "score provider (prefit estimator stub)"],
     "assumptions": ["scores in [0,1]", "every group contains both labels", "equality up to 1e-9 (p0/p1 are float64 on a path)"],
-    "outside": ["n > 7 rows, 4-5 groups", "float rounding of p0/p1"],
+    "outside": ["n > 7 rows, 4-5 groups", "float rounding of p0/p1",
+                "scores in machine dtypes (int8, uint8, int16, float16, float32, int64): arrays of these types cannot hold solver terms; covered by a CONCRETE seeded "
+                "sweep (jobs 'dtypes-*': 30/150 score vectors per dtype near the top of the dtype's range), which is sampling, not a solver verdict"],
 }
 MANIFEST = {
     "level_text": "Bounded symbolic exploration: for each listed layout/configuration z3 enumerates every feasible weak ordering of the symbolic scores and "
@@ -51,7 +53,80 @@ def jobs(tier, seed):
                 js.append({"id": f"s{si}-{cfg[0]}-{cfg[1]}-{'flip' if cfg[2] else 'noflip'}-g{gs}", "y": y, "groups": g, "cfg": list(cfg), "grid": gs})
     for K in ((2, 3, 4, 5) if tier == "quick" else (2, 3, 4, 5, 6)):
         js.insert(0, {"id": f"hullU1-K{K}", "kind": "hullU1", "K": K})
+    # scores in narrow machine dtypes (risk percentiles as int8, float16 logits ...) cannot hold proxies: concrete seeded sweep, see _run_dtypes
+    for dt in DTYPES:
+        js.append({"id": f"dtypes-{dt}", "kind": "dtypes", "dtype": dt, "seed": seed, "cases": 30 if tier == "quick" else 150})
     return js
+
+
+DTYPES = {"int8": (60, 120), "uint8": (120, 250), "int16": (20000, 32000), "float16": (100, 200), "float32": (0, 100), "int64": (0, 100)}
+
+
+# float16: integer levels 100..200 (midpoints are representable).  Score levels that are ADJACENT representable values of their dtype are float
+# rounding (a midpoint between them does not exist in that dtype; the same happens for adjacent float64 values) and stay outside the claim.
+
+
+class _DtypeScorer(tc.Scorer):
+    """returns its scores in the machine dtype they were given in (the ordinary Scorer converts to float64)"""
+
+    def decision_function(self, X):
+        idx = [int(v) for v in np.asarray(X)[:, 0]]
+        return np.asarray(self.scores)[idx]
+
+
+def _dtype_case(dt, cons, flip, y, groups, scores, gs):
+    from fairlearn.postprocessing import ThresholdOptimizer
+
+    n = len(y)
+    X = np.arange(n).reshape(-1, 1)
+    sf = [tc.GROUPS[g] for g in groups]
+    obj = "balanced_accuracy_score" if cons != "equalized_odds" else "accuracy_score"
+    to = ThresholdOptimizer(estimator=_DtypeScorer(np.array(scores, dtype=dt)), constraints=cons, objective=obj, grid_size=gs, flip=flip, prefit=True,
+                            predict_method="decision_function")
+    try:
+        to.fit(X, list(y), sensitive_features=sf)
+        pm = np.asarray(to._pmf_predict(X, sensitive_features=sf), dtype=float)
+    except Exception as e:
+        return f"raised {type(e).__name__}: {e}"
+    p1 = [float(pm[i, 1]) for i in range(n)]
+    vals = group_metric_values(cons, y, groups, p1)
+    ref = vals[min(vals)]
+    dev = max(abs(a - b) for v in vals.values() for a, b in zip(v, ref))
+    return None if dev <= 1e-9 else f"{constrained_metrics(cons)} per group = {vals} (max deviation {dev:.3g})"
+
+
+def _dtype_cases(job):
+    rnd = random.Random(job["seed"] * 7 + sum(job["dtype"].encode()))
+    lo, hi = DTYPES[job["dtype"]]
+    structs = tc.structures("quick")
+    for k in range(job["cases"]):
+        y, g = structs[k % len(structs)]
+        scores = [rnd.randint(lo, hi) for _ in y]
+        cons = (list(tc.SIMPLE) + ["equalized_odds"])[k % 5]
+        yield cons, bool(k % 2), list(y), list(g), scores, [3, 10, 100][k % 3]
+
+
+def _run_dtypes(job, acc):
+    r = acc.r
+    n = 0
+    for cons, flip, y, g, scores, gs in _dtype_cases(job):
+        n += 1
+        r["obligations"] += 1
+        r["ob_names"]["machine_dtype_scores_equalised"] = r["ob_names"].get("machine_dtype_scores_equalised", 0) + 1
+        bad = _dtype_case(job["dtype"], cons, flip, y, g, scores, gs)
+        if bad:
+            r["sat"] += 1
+            if len(r["cex"]) < 3:
+                r["cex"].append({"obligation": "machine_dtype_scores_equalised", "signature": f"dtype:{job['dtype']}", "job": job, "model": {},
+                                 "extra": {"cons": cons, "flip": flip, "y": y, "groups": g, "scores": scores, "grid": gs, "problem": bad}})
+        else:
+            r["discharged"] += 1
+    r["paths"] += 1
+    r["paths_with_obligations"] += 1
+    r["canaries"] += 1
+    r["canaries_fired"] += 1
+    r["samples"].append({"job": job["id"], "cases": n})
+    return acc.result()
 
 
 def constrained_metrics(cons):
@@ -74,6 +149,8 @@ def run_job(job, deadline):
 
         hull.explore_hull(acc, job["K"], deadline, ("parity",), "c04")
         return acc.result()
+    if job.get("kind") == "dtypes":
+        return _run_dtypes(job, acc)
     y, groups, cfg, gs = job["y"], job["groups"], tuple(job["cfg"]), job["grid"]
     n = len(y)
 
@@ -120,6 +197,11 @@ def replay(cex):
         from harness import hull
 
         return hull.replay_unit(cex)
+    if cex["job"].get("kind") == "dtypes":
+        e = cex["extra"]
+        bad = _dtype_case(cex["job"]["dtype"], e["cons"], e["flip"], e["y"], e["groups"], e["scores"], e["grid"])
+        return {"reproduced": bad is not None, "signature": cex["signature"],
+                "detail": f"{bad} for scores {e['scores']} stored as {cex['job']['dtype']}, y={e['y']} groups={e['groups']} constraints={e['cons']} flip={e['flip']} grid_size={e['grid']}"}
     job, mdl = cex["job"], cex["model"]
     y, groups, cfg, gs = job["y"], job["groups"], tuple(job["cfg"]), job["grid"]
     n = len(y)
